@@ -397,9 +397,30 @@ class Check:
         self.t0 = time.time()
 
     # ---- to be provided by plugins -------------------------------------
+    gen = ()   # translator jobs: dicts(file="parsec/x.c", fns=[...], out="theories/Gen/Gen_x.v", fuel="70%nat")
+
     def pregen(self):
-        """regenerate Gen_*.v from /repo (translator); return list of Failure."""
-        return []
+        """regenerate Gen_*.v from /repo's current C text (tools/c2gallina.py); return list of Failure.
+        A refusal of the translator is a broken obligation."""
+        fails = []
+        for job in self.gen:
+            if not os.path.exists(os.path.join(PBUILD, "parsec/include/parsec/parsec_config.h")):
+                ok, msg = ensure_parsec()
+                if not ok:
+                    fails.append(Failure("build", "PaRSEC does not build from /repo", msg))
+                    break
+            cmd = [sys.executable, os.path.join(VERIF, "tools/c2gallina.py"), "--repo", REPO, "--build", PBUILD,
+                   "--file", job["file"], "--out", os.path.join(COQ, job["out"])]
+            for fn in job["fns"]:
+                cmd += ["--fn", fn]
+            if job.get("fuel"):
+                cmd += ["--fuel", job["fuel"]]
+            with Lock("coq"):
+                rc, o, e = run(cmd, timeout=300)
+            if rc != 0:
+                fails.append(Failure("proof", "translator could not regenerate %s from %s" % (job["out"], job["file"]),
+                                     (o + e)[-1500:]))
+        return fails
 
     def cases(self):
         """list of case strings (one line each), corpus first."""
